@@ -5,6 +5,8 @@
 -/
 import GoBT.Interp.P2PKH
 import GoBT.Props.C13
+import GoBT.Script.ParseUnparse
+import GoBT.Ord.Model
 namespace GoBT.Interp.P2PKH
 open GoBT GoBT.Interp GoBT.Script
 
@@ -259,5 +261,237 @@ theorem inscription_spend_accepted (H : Crypto) (flags : Nat) (c : Ctx) (fullSig
     hrun hcond
   rw [h2]
   simp [finalCheck, checkErrorCondition, hds, fromBool, asBool]
+
+/-! ### the script Tx.Inscribe builds -/
+
+/-- the parsed form of `AppendPushData d`: OP_0 for the empty string, else the shortest push form -/
+def pushOpG (d : Bytes) : POp :=
+  if d.length = 0 then ⟨0x00, [], 1⟩
+  else if d.length ≤ 75 then ⟨UInt8.ofNat d.length, d, d.length + 1⟩
+  else if d.length ≤ 0xFF then ⟨opPUSHDATA1, d, -1⟩
+  else if d.length ≤ 0xFFFF then ⟨opPUSHDATA2, d, -2⟩
+  else ⟨opPUSHDATA4, d, -4⟩
+
+theorem pushOpG_facts (d : Bytes) (hd : d.length < 2 ^ 32) :
+    (pushOpG d).WF ∧ (pushOpG d).op ≠ opRETURN ∧ requiresTx (pushOpG d).op = false ∧
+    isConditionalOp (pushOpG d).op = false ∧ isDisabledOp (pushOpG d).op = false ∧ (pushOpG d).data.length ≤ d.length ∧
+    ∃ pre, pushPrefix d.length = some pre ∧ (pushOpG d).bytes = .ok (pre ++ d) := by
+  unfold pushOpG
+  by_cases h0 : d.length = 0
+  · have : d = [] := List.length_eq_zero_iff.mp h0
+    subst this
+    simp only [List.length_nil, ↓reduceIte]
+    refine ⟨by unfold POp.WF; simp [opPUSHDATA1, opPUSHDATA2, opPUSHDATA4], by decide, by decide, by decide, by decide, by simp, ?_⟩
+    exact ⟨[0x00], by simp [pushPrefix], by simp [POp.bytes]⟩
+  · simp only [h0, ↓reduceIte]
+    by_cases h1 : d.length ≤ 75
+    · simp only [h1, ↓reduceIte]
+      have hn : (UInt8.ofNat d.length).toNat = d.length := ofNat_toNat_small (by omega)
+      have hne : ∀ k : UInt8, 75 < k.toNat → UInt8.ofNat d.length ≠ k := by
+        intro k hk he; rw [he] at hn; omega
+      refine ⟨?_, hne _ (by decide), ?_, ?_, ?_, by simp, ?_⟩
+      · unfold POp.WF
+        have : 1 ≤ d.length := by omega
+        simp [hn, this, h1]
+      · unfold requiresTx
+        simp [hne 0xac (by decide), hne 0xad (by decide), hne 0xae (by decide), hne 0xaf (by decide), hne 0xb2 (by decide)]
+      · unfold isConditionalOp
+        simp [hne 0x63 (by decide), hne 0x64 (by decide), hne 0x67 (by decide), hne 0x68 (by decide),
+          hne 0x65 (by decide), hne 0x66 (by decide)]
+      · unfold isDisabledOp
+        simp [hne 0x8d (by decide), hne 0x8e (by decide)]
+      · refine ⟨[UInt8.ofNat d.length], by simp [pushPrefix, h1], ?_⟩
+        unfold POp.bytes
+        have a1 : ¬ ((d.length : Int) + 1 = 1) := by omega
+        have a2 : (d.length : Int) + 1 > 1 := by omega
+        have a3 : ¬ (1 + d.length ≠ ((d.length : Int) + 1).toNat) := by omega
+        simp only [a1, ↓reduceIte, a2, a3]
+        rfl
+    · simp only [h1, ↓reduceIte]
+      by_cases h2 : d.length ≤ 0xFF
+      · simp only [h2, ↓reduceIte]
+        refine ⟨by unfold POp.WF; simp [opPUSHDATA1]; omega, by decide, by decide, by decide, by decide, by simp, ?_⟩
+        refine ⟨[opPUSHDATA1, UInt8.ofNat d.length], by simp [pushPrefix, h1, h2], ?_⟩
+        have hrt : leDec (leEnc 1 d.length) = d.length := leDec_leEnc_of_lt (by simp; omega)
+        unfold POp.bytes
+        simp only [show ¬ ((-1 : Int) = 1) by decide, ↓reduceIte, show ¬ ((-1 : Int) > 1) by decide,
+          show (-(-1 : Int)).toNat = 1 by rfl, hrt, ne_eq, not_true_eq_false]
+        have : d.length % 256 = d.length := Nat.mod_eq_of_lt (by omega)
+        simp [leEnc, this]
+      · simp only [h2, ↓reduceIte]
+        by_cases h3 : d.length ≤ 0xFFFF
+        · simp only [h3, ↓reduceIte]
+          refine ⟨by unfold POp.WF; simp [opPUSHDATA1, opPUSHDATA2]; omega, by decide, by decide, by decide, by decide, by simp, ?_⟩
+          refine ⟨opPUSHDATA2 :: leEnc 2 d.length, by simp [pushPrefix, h1, h2, h3], ?_⟩
+          have hrt : leDec (leEnc 2 d.length) = d.length := leDec_leEnc_of_lt (by simp; omega)
+          unfold POp.bytes
+          simp only [show ¬ ((-2 : Int) = 1) by decide, ↓reduceIte, show ¬ ((-2 : Int) > 1) by decide,
+            show (-(-2 : Int)).toNat = 2 by rfl, hrt, ne_eq, not_true_eq_false]
+        · simp only [h3, ↓reduceIte]
+          refine ⟨by unfold POp.WF; simp [opPUSHDATA1, opPUSHDATA2, opPUSHDATA4]; omega, by decide, by decide, by decide,
+            by decide, by simp, ?_⟩
+          have h4 : d.length ≤ 0xFFFFFFFF := by omega
+          refine ⟨opPUSHDATA4 :: leEnc 4 d.length, by simp [pushPrefix, h1, h2, h3, h4], ?_⟩
+          have hrt : leDec (leEnc 4 d.length) = d.length := leDec_leEnc_of_lt (by simp; omega)
+          unfold POp.bytes
+          simp only [show ¬ ((-4 : Int) = 1) by decide, ↓reduceIte, show ¬ ((-4 : Int) > 1) by decide,
+            show (-(-4 : Int)).toNat = 4 by rfl, hrt, ne_eq, not_true_eq_false]
+
+/-- the envelope Tx.Inscribe writes: "ord", OP_1, content type, OP_0, data -/
+def inscMid (ct data : Bytes) : List POp :=
+  [pushOpG [0x6f, 0x72, 0x64], ⟨0x51, [], 1⟩, pushOpG ct, ⟨0x00, [], 1⟩, pushOpG data]
+
+theorem plain_wf (b : UInt8) (hb : b = 0x51 ∨ b = 0x00 ∨ b = 0x63 ∨ b = 0x68 ∨ b = 0x76 ∨ b = 0xa9 ∨ b = 0x88 ∨ b = 0xac) :
+    (⟨b, [], 1⟩ : POp).WF ∧ (⟨b, [], 1⟩ : POp).op ≠ opRETURN ∧ (⟨b, [], 1⟩ : POp).bytes = .ok [b] := by
+  rcases hb with rfl | rfl | rfl | rfl | rfl | rfl | rfl | rfl <;>
+    exact ⟨by unfold POp.WF; simp [opPUSHDATA1, opPUSHDATA2, opPUSHDATA4], by decide, by simp [POp.bytes]⟩
+
+/-- **Tx.Inscribe's locking script parses as the P2PKH template followed by the envelope** — for every content type and
+    payload the library can push (each below 2^32 bytes). -/
+theorem inscription_parses (h ct data lock : Bytes) (hh : h.length = 20)
+    (hl : Ord.inscriptionScript (lockBytes h) ct data = some lock) :
+    parseScript lock false = .ok (lockOps h ++ envelope (inscMid ct data)) := by
+  -- the three pushes succeeded, so the lengths are below 2^32
+  unfold Ord.inscriptionScript Ord.pushData at hl
+  simp only [bind, Option.bind, pure] at hl
+  simp only [List.length_cons, List.length_nil, Nat.zero_add, Nat.reduceAdd] at hl
+  cases ho : pushPrefix 3 with
+  | none => simp [ho] at hl
+  | some po =>
+    cases hc : pushPrefix ct.length with
+    | none => simp [ho, hc] at hl
+    | some pc =>
+      cases hd : pushPrefix data.length with
+      | none => simp [ho, hc, hd] at hl
+      | some pd =>
+        simp only [ho, hc, hd, Option.map_some, Option.some.injEq] at hl
+        have lim : ∀ n pre, pushPrefix n = some pre → n < 2 ^ 32 := by
+          intro n pre hp
+          unfold pushPrefix at hp
+          by_cases a1 : n ≤ 75
+          · omega
+          · by_cases a2 : n ≤ 0xFF
+            · omega
+            · by_cases a3 : n ≤ 0xFFFF
+              · omega
+              · by_cases a4 : n ≤ 0xFFFFFFFF
+                · omega
+                · simp [a1, a2, a3, a4] at hp
+        obtain ⟨wo, ro, _, _, _, _, po', hpo', bo⟩ := pushOpG_facts [0x6f, 0x72, 0x64] (by decide)
+        obtain ⟨wc, rc, _, _, _, _, pc', hpc', bc⟩ := pushOpG_facts ct (lim _ _ hc)
+        obtain ⟨wd, rd, _, _, _, _, pd', hpd', bd⟩ := pushOpG_facts data (lim _ _ hd)
+        rw [show ([0x6f, 0x72, 0x64] : Bytes).length = 3 from rfl, ho] at hpo'; rw [hc] at hpc'; rw [hd] at hpd'
+        cases hpo'; cases hpc'; cases hpd'
+        have wph : (pushOp h).WF ∧ (pushOp h).op ≠ opRETURN ∧ (pushOp h).bytes = .ok (UInt8.ofNat h.length :: h) := by
+          have hn : (UInt8.ofNat h.length).toNat = h.length := ofNat_toNat_small (by omega)
+          refine ⟨?_, ?_, ?_⟩
+          · unfold POp.WF pushOp; simp [hn, hh]
+          · intro he
+            have := congrArg UInt8.toNat he
+            simp only [pushOp] at this
+            rw [hn, hh] at this
+            simp [opRETURN] at this
+          · unfold POp.bytes pushOp
+            have a1 : ¬ ((h.length : Int) + 1 = 1) := by omega
+            have a2 : (h.length : Int) + 1 > 1 := by omega
+            have a3 : ¬ (1 + h.length ≠ ((h.length : Int) + 1).toNat) := by omega
+            simp only [a1, ↓reduceIte, a2, a3]
+        apply parseScript_unparse false
+        · intro o ho'
+          simp only [lockOps, envelope, inscMid, List.cons_append, List.nil_append, List.mem_cons, List.mem_nil_iff,
+            or_false, List.append_assoc] at ho'
+          rcases ho' with rfl | rfl | rfl | rfl | rfl | rfl | rfl | rfl | rfl | rfl | rfl | rfl | rfl
+          · exact ⟨(plain_wf 0x76 (by simp)).1, by decide, by intro h; cases h⟩
+          · exact ⟨(plain_wf 0xa9 (by simp)).1, by decide, by intro h; cases h⟩
+          · exact ⟨wph.1, wph.2.1, by intro h; cases h⟩
+          · exact ⟨(plain_wf 0x88 (by simp)).1, by decide, by intro h; cases h⟩
+          · exact ⟨(plain_wf 0xac (by simp)).1, by decide, by intro h; cases h⟩
+          · exact ⟨(plain_wf 0x00 (by simp)).1, by decide, by intro h; cases h⟩
+          · exact ⟨(plain_wf 0x63 (by simp)).1, by decide, by intro h; cases h⟩
+          · exact ⟨wo, ro, by intro h; cases h⟩
+          · exact ⟨(plain_wf 0x51 (by simp)).1, by decide, by intro h; cases h⟩
+          · exact ⟨wc, rc, by intro h; cases h⟩
+          · exact ⟨(plain_wf 0x00 (by simp)).1, by decide, by intro h; cases h⟩
+          · exact ⟨wd, rd, by intro h; cases h⟩
+          · exact ⟨(plain_wf 0x68 (by simp)).1, by decide, by intro h; cases h⟩
+        · have p1 : ∀ b : UInt8, (⟨b, [], 1⟩ : POp).bytes = .ok [b] := by intro b; simp [POp.bytes]
+          simp only [lockOps, envelope, inscMid, List.cons_append, List.nil_append, List.append_assoc, unparse, p1, wph.2.2,
+            bo, bc, bd, bind, Except.bind, pure, Except.pure]
+          rw [← hl]
+          simp [lockBytes]
+        · rw [← hl]
+          simp only [lockOps, envelope, inscMid, List.length_cons, List.length_append, List.length_nil, lockBytes, hh]
+          omega
+
+theorem inscription_length (h ct data lock : Bytes) (hh : h.length = 20)
+    (hl : Ord.inscriptionScript (lockBytes h) ct data = some lock) : 25 < lock.length := by
+  unfold Ord.inscriptionScript Ord.pushData at hl
+  simp only [bind, Option.bind, pure] at hl
+  cases ho : pushPrefix ([0x6f, 0x72, 0x64] : Bytes).length with
+  | none => rw [ho] at hl; simp at hl
+  | some po =>
+    cases hc : pushPrefix ct.length with
+    | none => rw [ho, hc] at hl; simp at hl
+    | some pc =>
+      cases hd : pushPrefix data.length with
+      | none => rw [ho, hc, hd] at hl; simp at hl
+      | some pd =>
+        rw [ho, hc, hd] at hl
+        simp only [Option.map_some, Option.some.injEq] at hl
+        rw [← hl]
+        simp only [lockBytes, List.length_append, List.length_cons, List.length_nil, hh]
+        omega
+
+/-- **Spending an output made by Tx.Inscribe on a P2PKH prefix is accepted.**  `lock` is the locking script
+    `Tx.Inscribe` builds from the P2PKH template for `h`, the content type `ct` and the payload `data` — whatever their
+    lengths, as long as the era's element-size and script-size limits admit them.  For every flag word with the FORKID
+    flag, every context, and every key and FORKID signature that verifies for the input's signature hash with the whole
+    locking script as script code, `Engine.Execute` accepts. -/
+theorem inscribed_output_spend_accepted (H : Crypto) (flags : Nat) (c : Ctx) (fullSig pk h ct data lock digest : Bytes)
+    (hl : Ord.inscriptionScript (lockBytes h) ct data = some lock)
+    (hflags : hasFlag (mkEnv H flags (some c)).flags fCleanStack = true → hasFlag (mkEnv H flags (some c)).flags fBip16 = true)
+    (hfork : hasFlag (mkEnv H flags (some c)).flags fForkID = true)
+    (hbit : (fullSig.getLast?.getD 0).toNat &&& 0x40 = 0x40)
+    (hs : 2 ≤ fullSig.length ∧ fullSig.length ≤ 75) (hp : 2 ≤ pk.length ∧ pk.length ≤ 75) (hh : h.length = 20)
+    (hct : ct.length ≤ (mkEnv H flags (some c)).cfg.maxElem) (hdata : data.length ≤ (mkEnv H flags (some c)).cfg.maxElem)
+    (hsize : lock.length ≤ (mkEnv H flags (some c)).cfg.maxScriptSize)
+    (hkey : H.ripemd160 (H.sha256 pk) = h)
+    (hht : checkHashTypeEncoding (mkEnv H flags (some c)) (fullSig.getLast?.getD 0).toNat = none)
+    (hse : checkSignatureEncoding (mkEnv H flags (some c)) fullSig.dropLast = none)
+    (hpe : checkPubKeyEncoding (mkEnv H flags (some c)) pk = none)
+    (hdig : sigDigest (mkEnv H flags (some c)) c lock (fullSig.getLast?.getD 0).toNat = some digest)
+    (hpk : H.pubKeyOk pk = true)
+    (hver : H.verify (hasFlag (mkEnv H flags (some c)).flags fStrictEnc || hasFlag (mkEnv H flags (some c)).flags fDERSig)
+              fullSig.dropLast digest pk = some true) :
+    (execute H flags (some c) (unlockBytes fullSig pk) lock).1 = .accept := by
+  have hcfg := mkEnv_cfgOk H flags (some c)
+  have hel := hcfg.elem
+  have hlen := inscription_length h ct data lock hh hl
+  have hnp : isP2SH lock = false := by
+    unfold isP2SH
+    have : (lock.length == 23) = false := by rw [beq_eq_false_iff_ne]; omega
+    simp [this]
+  have lim : ∀ (d : Bytes), d.length ≤ (mkEnv H flags (some c)).cfg.maxElem → d.length < 2 ^ 32 := by
+    intro d hd
+    have : (mkEnv H flags (some c)).cfg.maxElem ≤ 2147483647 := by
+      unfold mkEnv; simp only; split <;> split <;> decide
+    omega
+  have sk : ∀ (d : Bytes), d.length ≤ (mkEnv H flags (some c)).cfg.maxElem → Skippable (mkEnv H flags (some c)) (pushOpG d) := by
+    intro d hd
+    obtain ⟨_, _, _, h4, h5, h6, _⟩ := pushOpG_facts d (lim d hd)
+    exact ⟨h4, h5, by omega⟩
+  have hmid : ∀ o ∈ inscMid ct data, Skippable (mkEnv H flags (some c)) o := by
+    intro o ho
+    simp only [inscMid, List.mem_cons, List.mem_nil_iff, or_false] at ho
+    rcases ho with rfl | rfl | rfl | rfl | rfl
+    · exact sk _ (by simp only [List.length_cons, List.length_nil]; omega)
+    · exact ⟨by decide, by decide, by simp⟩
+    · exact sk _ hct
+    · exact ⟨by decide, by decide, by simp⟩
+    · exact sk _ hdata
+  exact inscription_spend_accepted H flags c fullSig pk h lock digest (inscMid ct data) hflags hfork hbit hs hp hh
+    (inscription_parses h ct data lock hh hl) hsize hnp hmid
+    (by have := hcfg.ops; simp only [inscMid, List.length_cons, List.length_nil]; omega)
+    hkey hht hse hpe hdig hpk hver
 
 end GoBT.Interp.P2PKH
